@@ -58,10 +58,15 @@ theorem distinct_step {pre post : List Thread} {t t' : Thread} (hd : distinctIds
   rw [List.filterMap_append, List.filterMap_cons] at *
   rw [h]; exact hd
 
-theorem holds_imp (o : Nat) (u : Thread) (h : holds o u = true) : inWin u = true ∨ atSend u = true := by
+theorem holds_imp (o : Nat) (u : Thread) (h : holds o u = true) : atSend u = true := by
   cases u with
-  | prod id pc cur sc => cases pc <;> simp [holds, inWin, atSend] at h ⊢
+  | prod id pc cur sc => cases pc <;> simp [holds, atSend] at h ⊢
   | _ => simp [holds] at h
+
+theorem inWin_imp (u : Thread) (h : inWin u = true) : atSend u = true := by
+  cases u with
+  | prod id pc cur sc => cases pc <;> simp [inWin, atSend] at h ⊢
+  | _ => simp [inWin] at h
 
 theorem atAdd_imp (u : Thread) (h : atAdd u = true) : holdsMu u = true := by
   cases u with
@@ -125,19 +130,25 @@ theorem inv_step {s s' : St} {pre post : List Thread} {t t' : Thread} (h : Inv (
   have hcf := cfacts_of_cnt hc
   have htt : TInv s t := ht t (by simp)
   have hsn : ∀ o, s.snt o ≤ s.mon.sch o := fun o => by have := hc.sch o; omega
-  have hex : s.wpc = .loopCnt → s.count = 0 → s.raced = false → ∀ o, s.mon.sch o = s.rcv o := by
-    intro hw hcz hr o
-    have hwin := hl.k (hl.w_stopped (Or.inl hw)) hr
-    have c1 := hc.win
+  have hcz : s.wpc = .loopCnt → s.count = 0 → (pre ++ t :: post).countP atSend = 0 ∧ s.queue = [] := by
+    intro hw hcz
     have c2 := hc.count
     have hh : holdC s.wpc = 0 := by simp [holdC, hw]
     rw [hh, hcz] at c2
-    have c5 : (pre ++ t :: post).countP (holds o) ≤ (pre ++ t :: post).countP inWin + (pre ++ t :: post).countP atSend :=
-      countP_le_add _ _ _ (holds_imp o) _
+    exact ⟨by omega, List.eq_nil_of_length_eq_zero (by omega)⟩
+  have hex : s.wpc = .loopCnt → s.count = 0 → ∀ o, s.mon.sch o = s.rcv o := by
+    intro hw hz o
+    obtain ⟨c1, hq⟩ := hcz hw hz
+    have c5 := countP_le_of_imp (holds o) atSend (holds_imp o) (pre ++ t :: post)
     have c3 := hc.sch o
-    have hq : s.queue = [] := List.eq_nil_of_length_eq_zero (by omega)
     have c4 := (hwo o).rcv_snt
     simp [hq] at c4
+    omega
+  have hexw : s.wpc = .loopCnt → s.count = 0 → s.win = 0 := by
+    intro hw hz
+    obtain ⟨c1, _⟩ := hcz hw hz
+    have c5 := countP_le_of_imp inWin atSend inWin_imp (pre ++ t :: post)
+    have c3 := hc.win
     omega
   have hld : atLoad t = true → (s.running = true → s.added = true) ∧ (s.stopped = true → s.waited = true) := by
     intro hat
@@ -168,7 +179,7 @@ theorem inv_step {s s' : St} {pre post : List Thread} {t t' : Thread} (h : Inv (
       by_cases hx : s.waited = true
       · exact hx
       · simp [hs, hx] at b2
-  have hl' := linv_step hl htt hcf hm
+  have hl' := linv_step hl htt hcf hexw hm
   have hn' := ninv_step hn hwo hws hl htt hcf hsn hex hm
   have hmo := mono_step hcf hm
   refine ⟨?_, fun o => wo_step (hwo o) hws hm, ws_step hws hm, hl', hn', ?_, distinct_step hid (step_pid hm)⟩
